@@ -160,6 +160,44 @@ def maps_matmul():
     return [AffineMap(3, 0, (m, k)), AffineMap(3, 0, (k, n)), AffineMap(3, 0, (m, n))]
 
 
+def random_families(rnd, n):
+    """seeded families: the matmul / element-wise templates with schedule maps that permute the iteration dimensions and
+    add batch dimensions (indexing every operand) and repetition dimensions (indexing none) at random positions."""
+    from xdsl.ir.affine import AffineDimExpr, AffineMap
+
+    out = []
+    for k in range(n):
+        kind = rnd.choice(["matmul", "matmul", "ew1", "ew2"])
+        extra = rnd.choice([0, 0, 1, 1, 2])
+        if kind == "matmul":
+            base = 3
+            tpl, tb, el = maps_matmul(), rnd.choice([(8, 8, 8), (4, 2, None), (None, 8, 8), (2, 2, 2), (6, 8, 8), (3, 3, 5)]), (1, 1, 4)
+        elif kind == "ew1":
+            base = rnd.choice([1, 2, 3])
+            d0 = AffineDimExpr(0)
+            tpl, tb, el = [AffineMap(1, 0, (d0,))] * 3, (rnd.choice([4, 16, 6]),), (8, 8, 8)
+        else:
+            base = 2
+            d0, d1 = AffineDimExpr(0), AffineDimExpr(1)
+            tpl, tb, el = [AffineMap(2, 0, (d0, d1))] * 2, rnd.choice([(8, 8), (4, None)]), (1, 1)
+        nd = base + extra
+        pos = list(range(nd))
+        rnd.shuffle(pos)
+        core, extras = pos[:base], pos[base:]
+        batch = [e for e in extras if rnd.random() < 0.5]  # the other extras are pure repetition
+        d = [AffineDimExpr(i) for i in range(nd)]
+        b = tuple(d[e] for e in sorted(batch))
+        if kind == "matmul":
+            m_, n_, k_ = (d[c] for c in core)
+            maps = [AffineMap(nd, 0, b + (m_, k_)), AffineMap(nd, 0, b + (k_, n_)), AffineMap(nd, 0, b + (m_, n_))]
+        elif kind == "ew1":
+            maps = [AffineMap(nd, 0, b + tuple(d[c] for c in core))] * 3
+        else:
+            maps = [AffineMap(nd, 0, b + tuple(d[c] for c in core)), AffineMap(nd, 0, b + tuple(d[c] for c in (reversed(core) if rnd.random() < 0.5 else core)))]
+        out.append((f"random_{kind}_{k}_dims{nd}", tpl, tb, maps, nd, el))
+    return out
+
+
 def families(tier):
     """(name, template_maps, template_bounds, schedule_maps, n_sched_dims, element_sizes)"""
     from xdsl.ir.affine import AffineDimExpr, AffineMap
@@ -171,6 +209,9 @@ def families(tier):
     out.append(("gemmx_gemm4", mm + [mm[-1]], (8, 8, 8), mm + [mm[-1]], 3, (1, 1, 4, 4)))
     out.append(("matmul_tpl_4_2_unbounded", mm, (4, 2, None), mm, 3, (1, 1, 4)))
     out.append(("matmul_tpl_none_8_8", mm, (None, 8, 8), mm, 3, (1, 1, 4)))
+    # template bounds that are not powers of two
+    out.append(("matmul_tpl_6_8_8", mm, (6, 8, 8), mm, 3, (1, 1, 4)))
+    out.append(("matmul_tpl_3_5_unbounded", mm, (3, 5, None), mm, 3, (1, 1, 4)))
     ew = [AffineMap(1, 0, (d[0],))] * 3
     out.append(("alu_1d", ew, (4,), ew, 1, (8, 8, 8)))
     ew2 = [AffineMap(2, 0, (d[0], d[1]))] * 3
